@@ -242,7 +242,7 @@ func genNDP(cl *caseList, rng *lib.Rand, scale int) {
 	// DNSSL at the bounds of its label loop: option of 255 units (2040 bytes) filled with 1-byte
 	// labels, with 63-byte labels, with one domain longer than 255, with no terminator up to the
 	// very last byte, terminator in the last / last but one byte
-	for _, units := range []int{2, 3, 31, 32, 33, 127, 128, 255} {
+	for _, units := range spans([]int{2, 3, 31, 32, 33, 127, 128, 255}, [2]int{2, 40}, [2]int{120, 136}, [2]int{245, 255}) {
 		n := units*8 - 2 // value bytes
 		mk := func(fill func(v []byte)) {
 			o := make([]byte, units*8)
@@ -397,7 +397,7 @@ func genHBH(cl *caseList, rng *lib.Rand, scale int) {
 	}
 	// option chains at the bounds: the largest header (255 -> 2048 bytes) filled with Pad1, with
 	// PadN of length 0 / 255, with options that end exactly at / one beyond / far beyond the end
-	for _, l1 := range []int{0, 1, 30, 31, 32, 254, 255} {
+	for _, l1 := range spans([]int{0, 1, 30, 31, 32, 254, 255}, [2]int{0, 40}, [2]int{120, 136}, [2]int{240, 255}) {
 		size := l1*8 + 8
 		mk := func(fill func(d []byte)) {
 			h := make([]byte, size)
